@@ -218,6 +218,8 @@ def validate_chunk(ctx, name, rows, sched_by_id, res_by_id, st):
             what = "the resolver returned although not every planned request was prepared and merged exactly once, or it returned an error"
         sc = sched_by_id.get(cid, {})
         key = "%srun:%s:%s" % ("ghost:" if sc.get("ghost") else "", r.violated or "nonconformance", evname)
+        if sc.get("terr"):
+            what += " [request %d fails with a transport error]" % sc["terr"]
         if sc.get("ghost"):
             what += " [plan with a ghost request %s: a nested fetch whose fetch path selects no item]" % sc["ghost"]
         if st["reports"] < MAX_REPORTS:
@@ -272,7 +274,8 @@ def go_side(ctx, results, scheds, st, baseline=None, hand_built=True):
 
     for r in results:
         s = by_id[r["id"]]
-        plan = "%s deps=%s%s" % (show(s["tree"]), s["deps"], (" ghost=%s (fetch path selects no item)" % s["ghost"]) if s.get("ghost") else "")
+        plan = "%s deps=%s%s%s" % (show(s["tree"]), s["deps"], (" ghost=%s (fetch path selects no item)" % s["ghost"]) if s.get("ghost") else "",
+                                   (" request %d fails (transport error)" % s["terr"]) if s.get("terr") else "")
         if r["unrealised"]:
             unreal += 1
         if r["wedged"]:
@@ -285,8 +288,12 @@ def go_side(ctx, results, scheds, st, baseline=None, hand_built=True):
             report("run:lock", "a request entered a [db] section (ld.prepared / ld.merging) while another request was parked inside one; "
                                "schedule %s of plan %s" % (r["id"], plan), r)
         if hand_built:
-            bad = {f: c for f, c in r["ds_calls"].items() if c != 1}
             nleaves = len([x for x in json.dumps(s["tree"]).split('"k": "F"')]) - 1
+            broken = bad_set(s["deps"], s.get("terr", 0))
+            # transitive dependants of the failed request are never issued; the failed request itself was (once)
+            never = {str(f) for f in broken if f != s.get("terr", 0)}
+            bad = {f: c for f, c in r["ds_calls"].items() if c != 1 or f in never}
+            nleaves -= len(never - set(r["ds_calls"]))
             ghost = {str(f) for f in s.get("ghost", [])}
             # a request that selects no parent item has nothing to read: it may be issued (once) or not at all
             bad = {f: c for f, c in bad.items() if not (f in ghost and c <= 1)}
@@ -298,9 +305,10 @@ def go_side(ctx, results, scheds, st, baseline=None, hand_built=True):
             if r["data"] != r["expect_data"]:
                 report("run:response-differs", "response data %s differs from the dependency-ordered evaluation %s; schedule %s steps %s of plan %s" % (
                     r["data"], r["expect_data"], r["id"], [(x["f"], x["a"]) for x in s["steps"]], plan), r)
-            if len(r["errors"]) != len(s.get("fail", [])):
-                report("run:errors-count", "%d errors in the response, %d requests answered with errors; schedule %s of plan %s" % (
-                    len(r["errors"]), len(s.get("fail", [])), r["id"], plan), r)
+            nerr = len([f for f in s.get("fail", []) if f not in broken]) + (1 if s.get("terr", 0) else 0)
+            if len(r["errors"]) != nerr:
+                report("run:errors-count", "%d errors in the response, %d requests answered with errors / failed; schedule %s of plan %s" % (
+                    len(r["errors"]), nerr, r["id"], plan), r)
         elif baseline is not None:
             b = baseline[r["grp"]]
             if r["data"] != b[0] or r["errors"] != b[1]:
@@ -354,7 +362,7 @@ def drive_run(ctx, binary, sp, ep, rp, scheds, st):
 def gen_schedules(ctx, plans, probes, tag, timeout=1800, simulate=None):
     """TLC enumerates every schedule of every plan of the list (plans: dicts with tree, deps); simulate=N: N random behaviours."""
     tp = ctx.path("plans-%s.ndjson" % tag)
-    lib.write_ndjson(tp, [{"tree": p["tree"], "deps": p["deps"]} for p in plans])
+    lib.write_ndjson(tp, [{"tree": p["tree"], "deps": p["deps"], "terr": p.get("terr", 0)} for p in plans])
     if not plans:
         return []
     kw = {"simulate": simulate, "depth": 100, "seed": ctx.seed, "workers": 1} if simulate else {"workers": 8}
@@ -364,6 +372,32 @@ def gen_schedules(ctx, plans, probes, tag, timeout=1800, simulate=None):
     for x in g.printed:
         uniq[lib.sha(x)] = x
     return list(uniq.values())
+
+
+def reduce_deps(deps):
+    """transitive reduction: only the direct dependencies (so that a dependant of a dependant does NOT depend on the root itself)"""
+    n = len(deps)
+    clo = [set(d) for d in deps]
+    for _ in range(n):
+        for f in range(n):
+            for d in list(clo[f]):
+                clo[f] |= clo[d - 1]
+    return [sorted(d for d in deps[f] if not any(d in clo[e - 1] for e in deps[f] if e != d)) for f in range(n)]
+
+
+def bad_set(deps, terr):
+    """the failed request and everything that (transitively) reads from it"""
+    bad = set()
+    if terr:
+        bad.add(terr)
+        changed = True
+        while changed:
+            changed = False
+            for f in range(1, len(deps) + 1):
+                if f not in bad and any(d in bad for d in deps[f - 1]):
+                    bad.add(f)
+                    changed = True
+    return bad
 
 
 def pick_fail(rng, plan):
@@ -542,6 +576,32 @@ def run(ctx):
     for i, p in enumerate(ghosts):
         p["grp"] = "G%04d" % i
     plans += ghosts
+    # (i'') faults: the same trees with only the DIRECT dependencies (transitive reduction: a dependant of a dependant does not
+    # depend on the root itself) and one request whose data source fails with a transport error; chains of length >= 3 and
+    # diamonds explicitly. Its transitive dependants must never be issued, everything else exactly once.
+    def L(i):
+        return {"k": "F", "id": i, "m": [i], "c": []}
+
+    def N(k, *c):
+        return {"k": k, "id": 0, "m": [], "c": list(c)}
+    explicit = [
+        (N("S", L(1), L(2), L(3), L(4)), [[], [1], [2], [3]]),                       # chain of 4
+        (N("S", L(1), N("P", L(2), L(3)), L(4)), [[], [1], [1], [2, 3]]),            # diamond
+        (N("S", L(3), L(1), N("P", L(4), L(2))), [[3], [1], [], [1]]),               # chain + fork, ids not topological
+        (N("P", N("S", L(1), L(2), L(3)), L(4)), [[], [1], [2], []]),                # chain next to an independent request
+    ]
+    faults = []
+    for p in small + rng.sample(four, min(len(four), 6 if quick else 40)):
+        if len(p["deps"]) >= 2:
+            faults += [{"tree": p["tree"], "deps": reduce_deps(p["deps"]), "terr": t} for t in range(1, len(p["deps"]) + 1)]
+    rng.shuffle(faults)
+    faults = faults[:30 if quick else 10 ** 9]
+    for tree, deps in explicit:
+        faults += [{"tree": tree, "deps": deps, "terr": t} for t in range(1, len(deps) + 1)]
+    for i, p in enumerate(faults):
+        # lock probes of the errored-fetch bookkeeping need a sibling of the failing request: probe every fault plan
+        p.update({"grp": "E%04d" % i, "src": "tree", "fail": [], "probe": True, "fault": True})
+    plans += faults
     # (ii) trees the REAL post-processor produced in part (a) (plain stratum), with the declared dependencies
     real = {}
     if plain_obs_path and os.path.exists(plain_obs_path):
@@ -585,7 +645,10 @@ def run(ctx):
     for idx in sorted(by_plan):
         p = plans[idx - 1]
         xs = sorted(by_plan[idx], key=lambda x: json.dumps(x, sort_keys=True))
-        if p["src"] in ("real", "fed"):
+        if p.get("fault"):
+            rng.shuffle(xs)
+            chosen += [(p, x) for x in xs[:6 if quick else 60]]
+        elif p["src"] in ("real", "fed"):
             rng.shuffle(xs)
             xs = xs[:caps[p["src"]][0 if quick else 1]]
             chosen += [(p, x) for x in xs]
@@ -598,11 +661,17 @@ def run(ctx):
         rng.shuffle(big_tree)
         big_tree = big_tree[:cap]
     chosen += big_tree
-    pr = {"tree": [], "fed": []}
+    pr = {"tree": [], "fed": [], "fault": []}
     for x in sorted(probes, key=lambda x: json.dumps(x, sort_keys=True)):
         p = pplans[x["idx"] - 1]
-        pr[p["src"]].append((p, x))
-    for src, capq, capt in (("tree", 100, 1300), ("fed", 80, 3000)):
+        if p.get("fault"):
+            # the probe of the errored-fetch bookkeeping: the failing request's data source returns while a sibling is parked
+            # inside a [db] section
+            if any(st_["a"] == "TF" and st_["f"] == p["terr"] for st_ in x["steps"]):
+                pr["fault"].append((p, x))
+        else:
+            pr[p["src"]].append((p, x))
+    for src, capq, capt in (("tree", 100, 1300), ("fed", 80, 3000), ("fault", 40, 600)):
         rng.shuffle(pr[src])
         chosen += pr[src][:capq if quick else capt]
     hand, feds = [], []
@@ -612,7 +681,7 @@ def run(ctx):
             sc.update({"kind": "fed", "query": p["query"], "mode": p["mode"]})
             feds.append(sc)
         else:
-            sc.update({"kind": "run", "fail": p["fail"], "arena": (i % 2 == 1), "ghost": p.get("ghost", [])})
+            sc.update({"kind": "run", "fail": p["fail"], "arena": (i % 2 == 1), "ghost": p.get("ghost", []), "terr": p.get("terr", 0)})
             hand.append(sc)
     ctx.log("part (b): %d plans (%d trees, %d post-processor trees, %d federated), %d + %d schedules generated, %d hand-built + %d federated chosen" % (
         len(plans), len(small + four + five), len(real), len(fed), len(plain), len(probes), len(hand), len(feds)))
